@@ -153,6 +153,16 @@ func (w *World) mutate(op, path string) bool {
 			return false
 		}
 		p = rp
+		// an existing symbolic link as the final component redirects opens
+		if fi, err := os.Lstat(p); err == nil && fi.Mode()&os.ModeSymlink != 0 && strings.HasPrefix(op, "open") {
+			if tgt, err := filepath.EvalSymlinks(p); err == nil {
+				if !w.inSandbox(tgt) {
+					w.violate("escape", "task %d: %s %s follows a symbolic link to %s outside the destination (refused)", t, op, w.Rel(p), tgt)
+					return false
+				}
+				p = tgt
+			}
+		}
 	}
 	if w.Allowed != nil && !w.Allowed(t, p) {
 		w.violate("escape", "task %d: %s %s lies outside the requested destination's own tree", t, op, w.Rel(p))
@@ -203,6 +213,41 @@ func RemoveAll(path string) error {
 		return errRefused
 	}
 	return os.RemoveAll(path)
+}
+
+// Symlink and Link: the code under test does not create links today; if it
+// starts to, they are created only when the link itself lies in the allowed tree
+// and its target resolves inside the sandbox (so that nothing real can be
+// reached through it), and every later operation resolves links before it is
+// judged.
+func Symlink(oldname, newname string) error {
+	if err := W.enter("symlink", newname, true); err != nil {
+		return err
+	}
+	if !W.mutate("symlink", newname) {
+		return errRefused
+	}
+	tgt := oldname
+	if !filepath.IsAbs(tgt) {
+		tgt = filepath.Join(filepath.Dir(newname), tgt)
+	}
+	W.LinksPossible = true
+	if !W.inSandbox(tgt) {
+		W.violate("escape", "task %d: symbolic link %s -> %s points outside the destination (and the test sandbox: not created)", W.S.Cur.ID, W.Rel(newname), oldname)
+		return errRefused
+	}
+	return os.Symlink(oldname, newname)
+}
+
+func Link(oldname, newname string) error {
+	if err := W.enter("link", newname, true); err != nil {
+		return err
+	}
+	if !W.mutate("link-from", oldname) || !W.mutate("link", newname) {
+		return errRefused
+	}
+	W.LinksPossible = true
+	return os.Link(oldname, newname)
 }
 
 func Rename(oldpath, newpath string) error {
@@ -257,7 +302,7 @@ func (f *File) Stat() (os.FileInfo, error) {
 	}
 	return f.f.Stat()
 }
-func (f *File) Fd() uintptr  { return f.fd }
+func (f *File) Fd() uintptr { return f.fd }
 
 func (f *File) Read(p []byte) (int, error) {
 	if f.w.S.Dead() {
@@ -384,9 +429,9 @@ func (w *World) CloseAll() {
 // ---- network -------------------------------------------------------------------
 
 type body struct {
-	w    *World
-	data []byte
-	off  int
+	w              *World
+	data           []byte
+	off            int
 	errAt, truncAt int
 }
 
